@@ -256,7 +256,18 @@ impl Write for SimStream {
         self.write(&all)
     }
 
+    /// A flush is an I/O call like any other and can fail hard at the placed index (the unchanged
+    /// tree never flushes). Interrupted flushes are not simulated: the property does not say
+    /// whether an interrupted flush after a complete delivery may be reported.
     fn flush(&mut self) -> io::Result<()> {
+        let idx = self.io_calls;
+        self.io_calls += 1;
+        self.cx.probe("sink_flush_called");
+        if self.fail_at == Some(idx) {
+            self.failed = true;
+            self.cx.fault("io_error");
+            return Err(io::Error::new(hard_kind(&self.cx), "simulated flush failure"));
+        }
         Ok(())
     }
 }
@@ -399,6 +410,11 @@ pub const ERR_KINDS: [serial_core::ErrorKind; 7] = [
 pub trait Wire {
     fn wire_read(&mut self, buf: &mut [u8], timeout: Duration) -> io::Result<usize>;
     fn wire_write(&mut self, buf: &[u8]) -> io::Result<usize>;
+    /// `Write::flush` of the port. The unchanged tree never flushes; a tree that does meets a port
+    /// whose flush can fail like any other call.
+    fn wire_flush(&mut self) -> io::Result<()> {
+        Ok(())
+    }
 }
 
 #[derive(Debug)]
@@ -425,7 +441,7 @@ impl<W: Wire> Write for SimPort<W> {
         self.wire.wire_write(buf)
     }
     fn flush(&mut self) -> io::Result<()> {
-        Ok(())
+        self.wire.wire_flush()
     }
 }
 
@@ -538,6 +554,10 @@ pub struct ScriptWire {
     pub sim_read_latency_ns: u64,
     /// The next write blocks for this long in REAL time (a UART draining its FIFO), once.
     pub real_delay_next_write: Option<Duration>,
+    /// The k-th `flush` call (counted from 0) fails with this kind, once.
+    pub flush_fail_at: Option<(usize, io::ErrorKind)>,
+    pub flushes: usize,
+    pub flush_failed: bool,
 }
 
 /// A `ScriptWire` that stays reachable after the port has been moved into the code under test.
@@ -563,6 +583,9 @@ impl Wire for SharedWire {
     fn wire_write(&mut self, buf: &[u8]) -> io::Result<usize> {
         self.lock().wire_write(buf)
     }
+    fn wire_flush(&mut self) -> io::Result<()> {
+        self.lock().wire_flush()
+    }
 }
 
 impl ScriptWire {
@@ -586,6 +609,9 @@ impl ScriptWire {
             real_delay_next_read: None,
             sim_read_latency_ns: 0,
             real_delay_next_write: None,
+            flush_fail_at: None,
+            flushes: 0,
+            flush_failed: false,
         }
     }
 
@@ -675,6 +701,20 @@ impl Wire for ScriptWire {
         self.ops.push(PortOp::Write { start_ns, end_ns: self.clock.now(), bytes, result: res.as_ref().map(|n| *n).map_err(|e| e.kind()) });
         self.real.push((t0, std::time::Instant::now()));
         res
+    }
+
+    fn wire_flush(&mut self) -> io::Result<()> {
+        let k = self.flushes;
+        self.flushes += 1;
+        self.cx.probe("port_flush_called");
+        match self.flush_fail_at {
+            Some((at, kind)) if at == k => {
+                self.flush_failed = true;
+                self.cx.fault("flush_error");
+                Err(io::Error::new(kind, "simulated port flush failure"))
+            }
+            _ => Ok(()),
+        }
     }
 }
 
